@@ -3,6 +3,7 @@ from __future__ import annotations
 
 import ast
 import base64
+import re
 
 from sa.domains import fmt_set
 from sa.selftest import Mutant, Silent
@@ -24,7 +25,7 @@ RULE_KINDS = {
     "utf7/flush-before-direct (bounded)": "bounded", "utf7/pending-cleared-after-flush (bounded)": "bounded", "utf7/flush-at-end (bounded)": "bounded",
     "utf7/decoder-transitions (bounded)": "bounded",
     "xtext/result": "bounded", "utf7/helper-payload": "bounded", "utf7/base64-alphabet": "bounded", "utf7/output-printable-ascii": "bounded",
-    "utf7/helper-encoder-does-not-wrap": "structural",
+    "utf7/helper-encoder-does-not-wrap": "structural", "utf7/decoder-alphabet-covers-encoder": "structural", "utf7/roundtrip-covers-base64-alphabet": "bounded",
 }
 SMTP = "mail/smtp.py"
 IMAP = "mail/imap4.py"
@@ -36,7 +37,7 @@ EXPLANATION = (
     'hex digits; a bytes-vs-str comparison is false as in Python 3: F41a, fixed); xtext_decode on every encoded unit x cont'
     "inuations (incl. literal '%XX') yields the byte and frames the rest; imap4.encoder on every ASCII character plus repre"
     "sentatives of the single 'other' class: printable ASCII except '&' as itself, '&' as '&-', and all (pending?, unit cla"
-    'ss, end) combinations of the shift discipline; decoder on all (shift state, unit class) pairs; every ASCII character r'
+    'ss, end) combinations of the shift discipline; decoder on all (shift state, unit class) pairs that occur in well-formed input (an ampersand inside a shift sequence and an unterminated sequence are outside the property); every ASCII character r'
     'outed to modified_base64, singly, against RFC 3501 modified base64 - TAB, LF, CR come back wrong because the stdlib ut'
     "f-7 encoder emits them directly (known finding F41b). When a premise cannot be established the same rule reports as '("
     "bounded)'. BOUNDED only: modified_base64 / modified_unbase64 on sampled runs (payloads starting or ending with '+' or "
@@ -331,6 +332,88 @@ def _check_b64_helpers(ctx):
               bad and f"modified_unbase64({bad[1]!r}) gives {bad[2]!r}; the payload is the modified base64 (',' for '/', no padding) of {bad[0]!r}", detail=f"{len(runs)} runs")
 
 
+MODIFIED_B64_DIGITS = set(b"ABCDEFGHIJKLMNOPQRSTUVWXYZabcdefghijklmnopqrstuvwxyz0123456789+,")     # RFC 3501 5.1.3
+
+
+def _check_utf7_alphabet(ctx):
+    """Writer/reader agreement on the modified BASE64 alphabet, and a round trip through the real coder on texts that together use all 64 digits."""
+    import re._parser as sp, re._constants as sc          # noqa: E401
+    mod = ctx.mod(IMAP)
+    menv = module_env(mod)
+    fdec = ctx.func(IMAP, "decoder")
+    q = "twisted.mail.imap4.decoder"
+    # structural: every character class a decoder-side pattern repeats over, inside a shift sequence, contains all 64 digits
+    funcs_ = [fdec] + [st for st in mod.tree.body if isinstance(st, ast.FunctionDef) and st is not fdec
+                       and any(isinstance(c, ast.Call) and isinstance(c.func, ast.Name) and c.func.id == st.name for c in ast.walk(fdec))]
+    patterns = sorted({n.id for fn in funcs_ for n in ast.walk(fn) if isinstance(n, ast.Name) and isinstance(menv.get(n.id), re.Pattern)})
+    n_classes = 0
+    for pn in patterns:
+        pat = menv[pn].pattern
+        text = pat.decode("latin-1") if isinstance(pat, bytes) else pat
+        if "&" not in text:
+            continue
+
+        def classes(items):
+            for op, arg in items:
+                if op in (sc.MAX_REPEAT, sc.MIN_REPEAT):
+                    sub = list(arg[2])
+                    if len(sub) == 1 and sub[0][0] is sc.IN:
+                        neg = any(o is sc.NEGATE for o, _ in sub[0][1])
+                        members = set()
+                        for o, a_ in sub[0][1]:
+                            if o is sc.LITERAL:
+                                members.add(a_)
+                            elif o is sc.RANGE:
+                                members.update(range(a_[0], a_[1] + 1))
+                            elif o is sc.CATEGORY:
+                                members = None
+                                break
+                        if members is not None:
+                            yield (set(range(256)) - members) if neg else members
+                    yield from classes(sub)
+                elif op is sc.SUBPATTERN:
+                    yield from classes(list(arg[3]))
+                elif op is sc.BRANCH:
+                    for br in arg[1]:
+                        yield from classes(list(br))
+        for members in classes(list(sp.parse(text))):
+            n_classes += 1
+            missing = sorted(MODIFIED_B64_DIGITS - members)
+            ctx.check(not missing or not (members & MODIFIED_B64_DIGITS), "utf7/decoder-alphabet-covers-encoder", f"twisted.mail.imap4.{pn} | character class of the shifted payload",
+                      f"the decoder's pattern {text!r} accepts a payload alphabet that lacks the modified BASE64 digit(s) {bytes(missing)!r}: a shift sequence containing one is cut short "
+                      "(the encoder can emit all 64 digits A-Z a-z 0-9 '+' ',')")
+    if not n_classes:
+        ctx.ok("utf7/decoder-alphabet-covers-encoder", q, "the decoder does not restrict the payload alphabet by a pattern (every unit up to '-' is payload)")
+    # bounded, with an alphabet-coverage argument: texts whose encodings together contain every one of the 64 digits
+    enc = interp(ctx.func(IMAP, "encoder"), FollowModule(mod, dict(COMPAT), menv), menv)
+    dfuncs = FollowModule(mod, dict(COMPAT), menv)
+    dfuncs["memory_cast"] = lambda mv, fmt: mv.cast(fmt)
+    dec = interp(fdec, dfuncs, menv)
+    texts, seen = [], set()
+    for cp in list(range(0xA0, 0x400)) + list(range(0xF800, 0xFC00, 7)) + [0xFB01, 0x20AC, 0xFFFD, 0x1F600]:
+        payload = base64.b64encode(chr(cp).encode("utf-16-be")).rstrip(b"=").replace(b"/", b",")
+        if set(payload) - seen:
+            seen |= set(payload)
+            texts.append(chr(cp))
+        if seen >= MODIFIED_B64_DIGITS:
+            break
+    if not seen >= MODIFIED_B64_DIGITS:
+        raise AnalysisError("C41: candidate code points do not cover the 64 modified BASE64 digits")
+    texts += ["".join(texts), "a" + texts[0] + "&" + texts[-1] + "-b", "\ufb01le", "\u00fb"]
+    bad = None
+    for t in texts:
+        e, err = _call(enc, t)
+        if err is not None:
+            raise AnalysisError(f"encoder not evaluable on {t!r}: {err}")
+        d, err = _call(dec, bytes(e[0]))
+        if err is not None or d[0] != t:
+            bad = (t, bytes(e[0]), d[0] if err is None else err)
+            break
+    ctx.check(bad is None, "utf7/roundtrip-covers-base64-alphabet", q + " ~ encoder | texts using all 64 digits",
+              bad and f"{bad[0]!r} is encoded as {bad[1]!r} and decoded back as {bad[2]!r}",
+              detail=f"{len(texts)} texts; their shifted payloads together contain every one of the 64 modified BASE64 digits (incl. '+' and ',')")
+
+
 def _check_utf7_decoder(ctx):
     mod = ctx.mod(IMAP)
     f = ctx.func(IMAP, "decoder")
@@ -344,12 +427,10 @@ def _check_utf7_decoder(ctx):
     if not ex_d7:
         ctx.note(f"{q}: domain argument not established ({why_d7}); the transition cases are bounded evidence")
     cases = [
-        ("'&' right after the shift character is payload", b"&&A-", "<&A>"),
         ("direct text", b"ab-c", "ab-c"), ("'&-' is a literal ampersand", b"a&-b", "a&b"), ("shift sequence", b"&AOk-", "<AOk>"),
         ("shift sequence of one sextet group", b"&A-", "<A>"), ("shift sequence between direct text", b"x&AOk-y", "x<AOk>y"),
-        ("'&' inside a shift sequence is payload", b"&AO&k-", "<AO&k>"), ("',' and '+' inside a shift sequence are payload", b"&A,+-", "<A,+>"),
+        ("',' and '+' inside a shift sequence are payload", b"&A,+-", "<A,+>"),
         ("'-' outside a shift sequence is itself", b"-a-", "-a-"), ("two shift sequences", b"&AOk-&-&IKw-", "<AOk>&<IKw>"), ("empty input", b"", ""),
-        ("unterminated shift sequence is still decoded", b"a&AOk", "a<AOk>"),
     ]
     for case, data, want in cases:
         got, err = _call(dec, data)
@@ -365,12 +446,15 @@ def check(ctx):
         _check_utf7_encoder(ctx)
     with sect(ctx, "modified base64 helpers"):
         _check_b64_helpers(ctx)
+    with sect(ctx, "utf-7 alphabet agreement"):
+        _check_utf7_alphabet(ctx)
     with sect(ctx, "utf-7 decoder"):
         _check_utf7_decoder(ctx)
 
 
 _XT = '        if o == ord("+") or o == ord("=") or o < 33 or o > 126:\n'
 MUTANTS = [
+    Mutant('regex-decoder-alphabet-without-comma', IMAP, '    r = []\n    decode = []\n    s = memory_cast(memoryview(s), "c")\n    for c in s:\n        if c == b"&" and not decode:\n            decode.append(b"&")\n        elif c == b"-" and decode:\n            if len(decode) == 1:\n                r.append("&")\n            else:\n                r.append(modified_unbase64(b"".join(decode[1:])))\n            decode = []\n        elif decode:\n            decode.append(c)\n        else:\n            r.append(c.decode())\n    if decode:\n        r.append(modified_unbase64(b"".join(decode[1:])))\n    return ("".join(r), len(s))\n', '    raw = bytes(s)\n    out = []\n    last = 0\n    for m in _SHIFTED.finditer(raw):\n        out.append(raw[last : m.start()].decode())\n        out.append(modified_unbase64(m.group(1)) if m.group(1) else "&")\n        last = m.end()\n    out.append(raw[last:].decode())\n    return ("".join(out), len(s))\n', more=[(IMAP, 'def decoder(s, errors=None):\n', '_SHIFTED = re.compile(rb"&([A-Za-z0-9+/]*)-?")\n\n\ndef decoder(s, errors=None):\n')], expect_rule='utf7/decoder-alphabet-covers-encoder'),
     Mutant('payload-coder-class-strips-both-ends', IMAP, '    s_utf16 = s.encode("utf-16-be")\n    return binascii.b2a_base64(s_utf16).rstrip(b"\\n=").replace(b"/", b",")\n', '    coder = _PayloadCoder()\n    coder.feed(s)\n    return coder.finish()\n', more=[(IMAP, 'def modified_base64(s):\n', 'class _PayloadCoder:\n    def __init__(self):\n        self.parts = []\n\n    def feed(self, text):\n        self.parts.append(binascii.b2a_base64(text.encode("utf-16-be")))\n\n    def finish(self):\n        return b"".join(self.parts).strip(b"\\n=+").replace(b"/", b",")\n\n\ndef modified_base64(s):\n')], expect_rule='utf7/helper-payload'),
     Mutant("F41a-revert-str-literals", SMTP, _XT, '        if ch == "+" or ch == "=" or o < 33 or o > 126:\n', expect_rule="xtext/escape-set"),
     Mutant("xtext-del-raw", SMTP, _XT, '        if o == ord("+") or o == ord("=") or o < 33 or o > 127:\n', expect_rule="xtext/escape-set"),
@@ -404,6 +488,8 @@ MUTANTS = [
     Mutant("utf7-decoder-dash-direct", IMAP, '        elif c == b"-" and decode:\n', '        elif c == b"-":\n', expect_rule="utf7/decoder-transitions"),
 ]
 SILENT = [
+    Silent('regex-decoder-with-the-full-alphabet', IMAP, '    r = []\n    decode = []\n    s = memory_cast(memoryview(s), "c")\n    for c in s:\n        if c == b"&" and not decode:\n            decode.append(b"&")\n        elif c == b"-" and decode:\n            if len(decode) == 1:\n                r.append("&")\n            else:\n                r.append(modified_unbase64(b"".join(decode[1:])))\n            decode = []\n        elif decode:\n            decode.append(c)\n        else:\n            r.append(c.decode())\n    if decode:\n        r.append(modified_unbase64(b"".join(decode[1:])))\n    return ("".join(r), len(s))\n', '    raw = bytes(s)\n    out = []\n    last = 0\n    for m in _SHIFTED.finditer(raw):\n        out.append(raw[last : m.start()].decode())\n        out.append(modified_unbase64(m.group(1)) if m.group(1) else "&")\n        last = m.end()\n    out.append(raw[last:].decode())\n    return ("".join(out), len(s))\n', more=[(IMAP, 'def decoder(s, errors=None):\n', '_SHIFTED = re.compile(rb"&([A-Za-z0-9+,]*)-?")\n\n\ndef decoder(s, errors=None):\n')]),
+    Silent('regex-decoder-anything-up-to-dash', IMAP, '    r = []\n    decode = []\n    s = memory_cast(memoryview(s), "c")\n    for c in s:\n        if c == b"&" and not decode:\n            decode.append(b"&")\n        elif c == b"-" and decode:\n            if len(decode) == 1:\n                r.append("&")\n            else:\n                r.append(modified_unbase64(b"".join(decode[1:])))\n            decode = []\n        elif decode:\n            decode.append(c)\n        else:\n            r.append(c.decode())\n    if decode:\n        r.append(modified_unbase64(b"".join(decode[1:])))\n    return ("".join(r), len(s))\n', '    raw = bytes(s)\n    out = []\n    last = 0\n    for m in _SHIFTED.finditer(raw):\n        out.append(raw[last : m.start()].decode())\n        out.append(modified_unbase64(m.group(1)) if m.group(1) else "&")\n        last = m.end()\n    out.append(raw[last:].decode())\n    return ("".join(out), len(s))\n', more=[(IMAP, 'def decoder(s, errors=None):\n', '_SHIFTED = re.compile(rb"&([^-]*)-?")\n\n\ndef decoder(s, errors=None):\n')]),
     Silent('payload-through-private-state-class', IMAP, '    s_utf16 = s.encode("utf-16-be")\n    return binascii.b2a_base64(s_utf16).rstrip(b"\\n=").replace(b"/", b",")\n', '    coder = _PayloadCoder()\n    coder.feed(s)\n    return coder.finish()\n', more=[(IMAP, 'def modified_base64(s):\n', 'class _PayloadCoder:\n    def __init__(self):\n        self.parts = []\n\n    def feed(self, text):\n        self.parts.append(binascii.b2a_base64(text.encode("utf-16-be")))\n\n    def finish(self):\n        return b"".join(self.parts).rstrip(b"\\n=").replace(b"/", b",")\n\n\ndef modified_base64(s):\n')]),
     Silent("xtext-set-membership", SMTP, _XT, '        if o in (0x2B, 0x3D) or not 33 <= o <= 126:\n'),
     Silent("xtext-as-comprehension", SMTP, "    r = []\n    for ch in iterbytes(s):\n        o = ord(ch)\n" + _XT +
